@@ -432,6 +432,11 @@ func isBasicNumberKind(kind reflect.Kind) bool {
 func convToBasicNumber(source interface{}, target reflect.Type) (interface{}, error) {
 	if v, ok := source.(*decimal.Big); ok {
 		f, _ := v.Float64()
+		if v.IsFinite() {
+			if pf, err := strconv.ParseFloat(v.String(), 64); err == nil {
+				f = pf // correctly rounded, which Float64 is not
+			}
+		}
 		i, _ := v.Int64() // truncates toward zero without losing digits
 		switch target.Kind() {
 		case reflect.Int8:
